@@ -744,7 +744,18 @@ pub fn gen_full(t: &mut Tape, o: &GenOpts) -> GSpec {
             v.extend(extra);
             v
         };
-        let mut x_alts = vec![user(prefix(vec![t0.clone()])), user(prefix(vec![SymKind::N(spb)])), user(prefix(vec![SymKind::N(spe), tz.clone()]))];
+        let mut x_alts = if g.t.chance(100) {
+            // the empty nonterminal closes every alternative: it is reduced at end of
+            // input (or before a follower) in the states behind the prefix, behind the
+            // terminal and behind the nonterminal starting with that terminal
+            vec![
+                user(prefix(vec![SymKind::N(spe)])),
+                user(prefix(vec![t0.clone(), SymKind::N(spe)])),
+                user(prefix(vec![SymKind::N(spb), SymKind::N(spe)])),
+            ]
+        } else {
+            vec![user(prefix(vec![t0.clone()])), user(prefix(vec![SymKind::N(spb)])), user(prefix(vec![SymKind::N(spe), tz.clone()]))]
+        };
         if g.t.chance(80) {
             // the empty nonterminal at the very end (reduced at end of input or before a follower)
             x_alts.push(user(prefix(vec![tm(2), SymKind::N(spe)])));
